@@ -582,13 +582,16 @@ been initialized
                     )
                     raise
         finally:
-            output.write("\n")
-            if hide_cursor:
-                output.write(SHOW_CURSOR)
-            output.flush()
-            if not_echo_input:
-                termios.tcsetattr(output_fd, termios.TCSANOW, old_attr)
-            render_data.finalize()
+            try:
+                output.write("\n")
+                if hide_cursor:
+                    output.write(SHOW_CURSOR)
+                output.flush()
+            finally:
+                # Must happen even if writing to the output fails or is interrupted
+                if not_echo_input:
+                    termios.tcsetattr(output_fd, termios.TCSANOW, old_attr)
+                render_data.finalize()
 
     def render(
         self,
